@@ -1215,3 +1215,261 @@ Proof.
   - destruct (align_up_spec x a Ha) as [k [_ [E _]]]. eauto.
   - destruct (pad_to_spec data a Ha) as [k [_ [E _]]]. eauto.
 Qed.
+
+(* ------------------------------------------------------------------ duplicate definitions *)
+(* global definitions contributed by the inputs, in processing order *)
+Definition sym_def (s : sym) : list string :=
+  if is_global (y_bind s) && negb (y_undefined s) then [y_name s] else [].
+Definition obj_defs (o : obj) : list string := flat_map sym_def (o_syms o).
+Definition input_def (i : minput) : list string := match i with ISymDef n => [n] | _ => [] end.
+Definition mem_defs (m : memory) : list string := flat_map input_def (m_inputs m).
+Definition all_defs (objs : list obj) (lay : option layout) (partial : bool)
+           (extra : list (string * Z)) : list string :=
+  map fst extra ++ flat_map obj_defs objs ++
+  (if partial then [] else match lay with Some l => flat_map mem_defs (l_mems l) | None => [] end).
+
+(* D = names defined so far: duplicate free, and exactly the defined globals of the destination *)
+Definition DInv (syms : list sym) (D : list string) : Prop :=
+  NoDup D /\ forall n, In n D <-> exists s, find_global n syms = Some s /\ y_value s <> None.
+
+Lemma find_global_app l x n :
+  find_global n (l ++ [x]) =
+  match find_global n l with
+  | Some s => Some s
+  | None => if is_global (y_bind x) && String.eqb (y_name x) n then Some x else None
+  end.
+Proof.
+  induction l as [|y r IH]; cbn; [reflexivity|].
+  destruct (is_global (y_bind y) && String.eqb (y_name y) n); auto.
+Qed.
+
+Lemma find_global_define_other m n v sc l : m <> n ->
+  find_global m (define_global n v sc l) = find_global m l.
+Proof.
+  intros Hm. induction l as [|x r IH]; cbn; [reflexivity|].
+  destruct (is_global (y_bind x) && String.eqb (y_name x) n) eqn:E; cbn.
+  - apply andb_true_iff in E. destruct E as [E1 E2]. apply String.eqb_eq in E2.
+    assert (E3 : String.eqb (y_name x) m = false) by (apply String.eqb_neq; congruence).
+    now rewrite E3, !andb_false_r.
+  - destruct (is_global (y_bind x) && String.eqb (y_name x) m); auto.
+Qed.
+
+Lemma find_global_define_same n v sc l s :
+  find_global n l = Some s ->
+  find_global n (define_global n v sc l) =
+    Some (mkSym (y_id s) (y_name s) (y_bind s) (Some v) sc (y_typ s) (y_size s)).
+Proof.
+  induction l as [|x r IH]; cbn; [discriminate|].
+  destruct (is_global (y_bind x) && String.eqb (y_name x) n) eqn:E; cbn; intros H.
+  - injection H as Hx. subst s. unfold is_global in *. now rewrite E.
+  - rewrite E. auto.
+Qed.
+
+Lemma DInv_not_in syms D n : DInv syms D ->
+  (forall s, find_global n syms = Some s -> y_value s = None) -> ~ In n D.
+Proof.
+  intros [_ I] H Hin. apply I in Hin. destruct Hin as [s [F V]]. apply V. auto.
+Qed.
+
+Lemma NoDup_snoc {A} (l : list A) x : NoDup l -> ~ In x l -> NoDup (l ++ [x]).
+Proof.
+  intros N H. induction N as [|y t Hy N IH]; cbn.
+  - constructor; [tauto | constructor].
+  - constructor.
+    + rewrite in_app_iff. cbn. intros [?|[?|[]]]; [tauto|]. subst. apply H. now left.
+    + apply IH. intros Hx. apply H. now right.
+Qed.
+
+Lemma merge_def_D syms D n sc v typ size syms' id :
+  DInv syms D -> merge_global_symbol syms n sc (Some v) typ size = Ok (syms', id) ->
+  DInv syms' (D ++ [n]).
+Proof.
+  intros Inv H. unfold merge_global_symbol in H.
+  destruct (find_global n syms) as [s0|] eqn:F.
+  - destruct (y_value s0) eqn:V; [discriminate|]. injection H as <- <-.
+    assert (Hn : ~ In n D).
+    { apply (DInv_not_in _ _ _ Inv). intros s Hs. congruence. }
+    destruct Inv as [ND I]. split; [now apply NoDup_snoc|].
+    intros m. rewrite in_app_iff. cbn. destruct (String.eqb m n) eqn:E.
+    + apply String.eqb_eq in E. subst m. rewrite (find_global_define_same _ _ _ _ _ F).
+      split; [intros _; eexists; split; [reflexivity | cbn; discriminate] | tauto].
+    + apply String.eqb_neq in E. rewrite find_global_define_other by assumption. rewrite I.
+      split; [intros [?|[?|[]]]; [assumption | congruence] | tauto].
+  - apply inject_symbol_spec in H. destruct H as [-> ->].
+    assert (Hn : ~ In n D).
+    { apply (DInv_not_in _ _ _ Inv). intros s Hs. congruence. }
+    destruct Inv as [ND I]. split; [now apply NoDup_snoc|].
+    intros m. rewrite in_app_iff, find_global_app. cbn. destruct (String.eqb m n) eqn:E.
+    + apply String.eqb_eq in E. subst m. rewrite F. cbn. rewrite String.eqb_refl.
+      split; [intros _; eexists; split; [reflexivity | cbn; discriminate] | tauto].
+    + apply String.eqb_neq in E. rewrite I.
+      assert (E2 : String.eqb n m = false) by (apply String.eqb_neq; congruence). rewrite E2.
+      destruct (find_global m syms) as [s1|]; cbn.
+      * split; [intros [?|[?|[]]]; [assumption | congruence] | tauto].
+      * split; [intros [[s [? _]]|[?|[]]]; [discriminate | congruence] | intros [s [? _]]; discriminate].
+Qed.
+
+Lemma append_nondef_D syms D x :
+  DInv syms D -> (is_global (y_bind x) = true -> y_value x = None /\ find_global (y_name x) syms = None) ->
+  DInv (syms ++ [x]) D.
+Proof.
+  intros [ND I] Hx. split; [assumption|]. intros m. rewrite I, find_global_app.
+  destruct (find_global m syms) as [s|] eqn:F; [reflexivity|].
+  destruct (is_global (y_bind x) && String.eqb (y_name x) m) eqn:E.
+  - apply andb_true_iff in E. destruct E as [E1 E2]. destruct (Hx E1) as [V _].
+    split; [intros [s [? _]]; discriminate | intros [s [Hs Hv]]; injection Hs as <-; congruence].
+  - reflexivity.
+Qed.
+
+Lemma merge_undef_D syms D n sc typ size syms' id :
+  DInv syms D -> merge_global_symbol syms n sc None typ size = Ok (syms', id) -> DInv syms' D.
+Proof.
+  intros Inv H. unfold merge_global_symbol in H.
+  destruct (find_global n syms) as [s0|] eqn:F.
+  - now injection H as <- <-.
+  - apply inject_symbol_spec in H. destruct H as [-> ->].
+    apply append_nondef_D; [assumption|]. cbn. auto.
+Qed.
+
+Lemma inject_sym_D offs syms D s syms' id :
+  DInv syms D -> inject_sym offs syms s = Ok (syms', id) -> DInv syms' (D ++ sym_def s).
+Proof.
+  intros Inv H. unfold inject_sym in H. inv_bind H. destruct a as [value sect]. cbn [fst snd] in H.
+  unfold sym_def, y_undefined. destruct (is_global (y_bind s)) eqn:G; cbn [andb].
+  - destruct (y_value s) as [v|]; cbn [negb].
+    + destruct (y_sect s); [|discriminate]. destruct (lookup s0 offs); [|discriminate].
+      injection Ha as <- <-. eapply merge_def_D; eassumption.
+    + injection Ha as <- <-. rewrite app_nil_r. eapply merge_undef_D; eassumption.
+  - rewrite app_nil_r. apply inject_symbol_spec in H. destruct H as [-> ->].
+    apply append_nondef_D; [assumption|]. cbn [y_bind]. congruence.
+Qed.
+
+Lemma inject_syms_D offs inps : forall syms D syms' ids,
+  DInv syms D -> inject_syms offs syms inps = Ok (syms', ids) ->
+  DInv syms' (D ++ flat_map sym_def inps).
+Proof.
+  induction inps as [|s r IH]; intros syms D syms' ids Inv H; cbn in H.
+  - injection H as <- <-. cbn. now rewrite app_nil_r.
+  - inv_bind H. destruct a as [syms1 id]. inv_bind H. destruct a as [syms2 ids2]. injection H as <- <-.
+    cbn. rewrite app_assoc. eapply IH; [|eassumption]. eapply inject_sym_D; eassumption.
+Qed.
+
+Lemma merge_objects_D objs : forall d D d' ts,
+  DInv (o_syms d) D -> merge_objects d objs = Ok (d', ts) ->
+  DInv (o_syms d') (D ++ flat_map obj_defs objs).
+Proof.
+  induction objs as [|o r IH]; intros d D d' ts Inv H; cbn in H.
+  - injection H as <- <-. cbn. now rewrite app_nil_r.
+  - inv_bind H. destruct a as [d1 t]. inv_bind H. destruct a as [d2 ts2]. injection H as <- <-.
+    cbn. rewrite app_assoc. eapply IH; [|eassumption].
+    unfold inject_object in Ha. inv_bind Ha. destruct a as [secs offs]. inv_bind Ha. destruct a as [syms ids].
+    inv_bind Ha. inv_bind Ha. injection Ha as <- _. cbn. eapply inject_syms_D; eassumption.
+Qed.
+
+Lemma layout_inputs_D l : forall st D st',
+  DInv (o_syms (fst (fst st))) D -> layout_inputs st l = Ok st' ->
+  DInv (o_syms (fst (fst st'))) (D ++ flat_map input_def l).
+Proof.
+  induction l as [|i r IH]; intros st D st' Inv H; cbn in H.
+  - injection H as <-. cbn. now rewrite app_nil_r.
+  - inv_bind H. cbn. rewrite app_assoc. eapply IH; [|eassumption].
+    destruct st as [[d cur] names]. cbn [layout_input fst] in *. destruct i as [n|n|n|al]; cbn [input_def].
+    + destruct (get_section_create n (o_sects d)) as [secs1 s]. inv_bind Ha. injection Ha as <-.
+      cbn. now rewrite app_nil_r.
+    + destruct (find_sect (sd_name n) (o_sects d)); [discriminate|].
+      destruct (find_sect n (o_sects d)); [|discriminate]. injection Ha as <-. cbn. now rewrite app_nil_r.
+    + destruct (find_sect (sd_name n) (o_sects d)); [discriminate|].
+      inv_bind Ha. destruct a0 as [syms id0]. injection Ha as <-. cbn. eapply merge_def_D; eassumption.
+    + inv_bind Ha. injection Ha as <-. cbn. now rewrite app_nil_r.
+Qed.
+
+Lemma layout_sections_D mems : forall d D d',
+  DInv (o_syms d) D -> layout_sections d mems = Ok d' ->
+  DInv (o_syms d') (D ++ flat_map mem_defs mems).
+Proof.
+  induction mems as [|m r IH]; intros d D d' Inv H; cbn in H.
+  - injection H as <-. cbn. now rewrite app_nil_r.
+  - inv_bind H. cbn. rewrite app_assoc. eapply IH; [|eassumption].
+    unfold layout_memory in Ha. inv_bind Ha. destruct a0 as [[d1 cur] names]. inv_bind Ha.
+    destruct (len a0 >? m_size m); [discriminate|]. injection Ha as <-. cbn.
+    apply (layout_inputs_D _ (d, m_loc m, []) D _ Inv Ha0).
+Qed.
+
+Lemma inject_extra_D extra : forall syms D syms',
+  DInv syms D -> inject_extra syms extra = Ok syms' -> DInv syms' (D ++ map fst extra).
+Proof.
+  induction extra as [|[n v] r IH]; intros syms D syms' Inv H; cbn in H.
+  - injection H as <-. cbn. now rewrite app_nil_r.
+  - inv_bind H. destruct a as [syms1 id]. cbn. change (n :: map fst r) with ([n] ++ map fst r).
+    rewrite app_assoc. eapply IH; [|eassumption].
+    assert (M : merge_global_symbol syms n None (Some v) OBJECT 0 = Ok (syms1, id)).
+    { unfold merge_global_symbol. destruct (find_global n syms) eqn:F2; [|exact Ha].
+      unfold inject_symbol in Ha. cbn in Ha. rewrite F2 in Ha. discriminate. }
+    eapply merge_def_D; eassumption.
+Qed.
+
+Lemma link_trace_no_duplicate_definitions objs lay partial entry extra out ts :
+  link_trace objs lay partial entry extra = Ok (out, ts) ->
+  NoDup (all_defs objs lay partial extra).
+Proof.
+  unfold link_trace. destruct objs as [|o0 objs0]; [discriminate|]. set (objs := o0 :: objs0).
+  fold (entry_name lay entry). intros H.
+  inv_bind H. destruct a as [syms0 eid]. inv_bind H. inv_bind H. destruct a0 as [d1 ts1].
+  assert (I0 : DInv syms0 []).
+  { destruct (entry_name lay entry) as [e|].
+    - inv_bind Ha. destruct a0 as [sy i]. injection Ha as <- <-.
+      apply inject_symbol_spec in Ha2. destruct Ha2 as [-> _].
+      apply (append_nondef_D [] []); [|cbn; auto].
+      split; [constructor|]. intros n. cbn. split; [tauto | intros [s [? _]]; discriminate].
+    - injection Ha as <- <-. split; [constructor|]. intros n. cbn.
+      split; [tauto | intros [s [? _]]; discriminate]. }
+  pose proof (inject_extra_D _ _ _ _ I0 Ha0) as I1. cbn [app] in I1.
+  pose proof (merge_objects_D objs (mkObj [] a [] [] eid) _ _ _ I1 Ha1) as I2.
+  unfold all_defs. destruct partial.
+  - rewrite app_nil_r. apply I2.
+  - inv_bind H. inv_bind H. injection H as <- <-. destruct lay as [l|].
+    + pose proof (layout_sections_D _ _ _ _ I2 Ha2) as I3. rewrite <- app_assoc in I3. apply I3.
+    + rewrite app_nil_r. apply I2.
+Qed.
+
+(* step-level exactness of the three diagnostics *)
+Lemma merge_global_symbol_diag syms n sc value typ size c :
+  merge_global_symbol syms n sc value typ size = Diag c <->
+  c = 1 /\ exists s v v0, find_global n syms = Some s /\ y_value s = Some v0 /\ value = Some v.
+Proof.
+  unfold merge_global_symbol, inject_symbol. cbn.
+  destruct (find_global n syms) as [s|] eqn:F.
+  - destruct value as [v|]; [destruct (y_value s) as [v0|] eqn:V|].
+    + split; [intros H; injection H as <-; eauto 8 | intros [-> _]; reflexivity].
+    + split; [discriminate | intros [_ [s' [v' [v0 [E [V' _]]]]]]; congruence].
+    + split; [discriminate | intros [_ [s' [v' [v0 [_ [_ E]]]]]]; discriminate].
+  - split; [discriminate | intros [_ [s' [v' [v0 [E _]]]]]; discriminate].
+Qed.
+
+Lemma check_undefined_diag d :
+  (check_undefined_symbols d = Diag 5 <->
+   exists s, In s (o_syms d) /\ is_global (y_bind s) = true /\ y_value s = None) /\
+  (check_undefined_symbols d = Ok tt \/ check_undefined_symbols d = Diag 5).
+Proof.
+  unfold check_undefined_symbols. destruct (existsb undefined_global (o_syms d)) eqn:E.
+  - split; [|now right]. split; [intros _|reflexivity].
+    apply existsb_exists in E. destruct E as [s [Hs U]]. exists s. split; [assumption|].
+    unfold undefined_global, y_undefined in U. apply andb_true_iff in U. destruct U as [U1 U2].
+    split; [assumption|]. destruct (y_value s); [discriminate | reflexivity].
+  - split; [|now left]. split; [discriminate|]. intros [s [Hs [G V]]].
+    assert (existsb undefined_global (o_syms d) = true); [|congruence].
+    apply existsb_exists. exists s. split; [assumption|]. unfold undefined_global, y_undefined.
+    now rewrite V, G.
+Qed.
+
+Lemma layout_memory_size_check d m d1 cur names data :
+  layout_inputs (d, m_loc m, []) (m_inputs m) = Ok (d1, cur, names) ->
+  image_data (o_sects d1) (mkImage (m_name m) (m_loc m) names) = Ok data ->
+  (layout_memory d m = Diag 4 <-> len data > m_size m) /\
+  (len data <= m_size m -> exists d', layout_memory d m = Ok d').
+Proof.
+  intros L I. unfold layout_memory. rewrite L. cbn [bind]. rewrite I. cbn [bind].
+  destruct (len data >? m_size m) eqn:E.
+  - split; [split; [lia | reflexivity] | lia].
+  - split; [split; [discriminate | lia] | eauto].
+Qed.
